@@ -40,7 +40,7 @@ def check(ctx):
 
 
 # ------------------------------------------------------------------------------------------------ R1
-def check_decorator(ctx):
+def check_decorator(ctx, rule='R1'):
     fi = ctx.fn('gemdat.caching.weak_lru_cache')
     wrapper = inner_cached = caller = None
     for n in ast.walk(fi.node):
@@ -60,7 +60,7 @@ def check_decorator(ctx):
                 cached_name = n.targets[0].id
     if inner_cached is None:
         any_lru = any('lru_cache' in norm_text(n) for n in ast.walk(fi.node) if isinstance(n, (ast.Attribute, ast.Name)))
-        ctx.ob('R1', fi, fi.node.name, None if any_lru else False, 'no functools.lru_cache-decorated inner function: results are not memoised '
+        ctx.ob(rule, fi, fi.node.name, None if any_lru else False, 'no functools.lru_cache-decorated inner function: results are not memoised '
                                                                      'through the weak-key wrapper' if not any_lru else
                'use of functools.lru_cache in the wrapper not recognised')
         return
@@ -68,7 +68,7 @@ def check_decorator(ctx):
     a = inner_cached.args
     first = (a.posonlyargs + a.args)[0].arg if (a.posonlyargs + a.args) else None
     if first is None:
-        ctx.ob('R1', fi, inner_cached.name, None, 'cached inner function has no positional self parameter')
+        ctx.ob(rule, fi, inner_cached.name, None, 'cached inner function has no positional self parameter')
         return
     uses = [n for n in ast.walk(inner_cached) if isinstance(n, ast.Name) and n.id == first and isinstance(n.ctx, ast.Load)]
     pm = {}
@@ -76,7 +76,7 @@ def check_decorator(ctx):
         for c in ast.iter_child_nodes(n):
             pm[id(c)] = n
     bad = [u for u in uses if not (isinstance(pm.get(id(u)), ast.Call) and pm[id(u)].func is u and not pm[id(u)].args)]
-    ctx.ob('R1', fi, f'{inner_cached.name}({first}, ...)', not bad,
+    ctx.ob(rule, fi, f'{inner_cached.name}({first}, ...)', not bad,
            'the weak reference is only dereferenced' if not bad else
            f'`{first}` (the cache key) is used other than by dereferencing it: {norm_text(pm.get(id(bad[0]), bad[0]))}')
     # (b) every call of the cached function passes weakref.ref(<self param of the caller>) first
@@ -87,7 +87,7 @@ def check_decorator(ctx):
                 if isinstance(c.func, ast.Name) and c.func.id == cached_name:
                     callers.append((n, c))
     if not callers:
-        ctx.ob('R1', fi, inner_cached.name, False, 'the cached function is never called by the wrapper')
+        ctx.ob(rule, fi, inner_cached.name, False, 'the cached function is never called by the wrapper')
     mod = fi.module
     for fn, c in callers:
         selfp = (fn.args.posonlyargs + fn.args.args)[0].arg if (fn.args.posonlyargs + fn.args.args) else None
@@ -111,13 +111,13 @@ def check_decorator(ctx):
                 ok, detail = False, 'keyed on self itself: the cache keeps every object alive (strong reference)'
             else:
                 ok, detail = None, f'unrecognised key expression {norm_text(a0)}'
-        ctx.ob('R1', fi, c, ok, detail)
+        ctx.ob(rule, fi, c, ok, detail)
     # (c) the wrapped function receives the dereferenced object first
     inner_calls = [expand(c, def_map(inner_cached)) for c in calls_in(inner_cached) if isinstance(c.func, ast.Name)]
     ok = any(c.args and isinstance(c.args[0], ast.Call) and isinstance(c.args[0].func, ast.Name) and c.args[0].func.id == first
              and len(c.args) >= 1 and any(isinstance(x, ast.Starred) for x in c.args[1:]) and any(k.arg is None for k in c.keywords)
              for c in inner_calls)
-    ctx.ob('R1', fi, inner_cached.name + ' body', True if ok else None,
+    ctx.ob(rule, fi, inner_cached.name + ' body', True if ok else None,
            'calls func(self(), *args, **kwargs)' if ok else 'the cached function does not forward (self(), *args, **kwargs)')
     # (d) maxsize/typed forwarded; (e) zero direct functools caches on methods
     import re
@@ -129,9 +129,9 @@ def check_decorator(ctx):
             txt = norm_text(d)
             if re.search(r'(?<!weak_)\b(lru_cache|cached_property)\b|functools\W+cache\b|^cache$', txt):
                 n_direct += 1
-                ctx.ob('R1', f, f'@{txt}', False, 'method memoised with functools directly: the cache holds a strong reference to self '
+                ctx.ob(rule, f, f'@{txt}', False, 'method memoised with functools directly: the cache holds a strong reference to self '
                                                   'and compares objects with ==')
-    ctx.ob('R1', fi, 'no direct functools cache on methods', True, f'{len([f for f in ctx.p.functions.values() if f.cls])} methods scanned, {n_direct} direct')
+    ctx.ob(rule, fi, 'no direct functools cache on methods', True, f'{len([f for f in ctx.p.functions.values() if f.cls])} methods scanned, {n_direct} direct')
 
 
 # ------------------------------------------------------------------------------------------------ R2
